@@ -70,7 +70,12 @@ func c27Gen(rt *rapid.T) c27Case {
 		Branch:  rapid.SampledFrom([]int{16, 16, 256}).Draw(rt, "branch"),
 	}
 	c.Prefix = rapid.SampledFrom(c27BalancePrefixes).Draw(rt, "prefix")
-	for d := 0; d < 5; d++ {
+	priceRegime := rapid.SampledFrom([]string{"mixed", "mixed", "mixed", "mixed", "zeros", "default"}).Draw(rt, "priceRegime")
+	for d := 0; d < 5 && priceRegime != "zeros"; d++ {
+		if priceRegime == "default" {
+			c.MinPrice[d] = 100
+			continue
+		}
 		c.MinPrice[d] = rapid.SampledFrom([]uint64{0, 1, 100, 100, 7, 1 << 32, 1 << 63, math.MaxUint64}).Draw(rt, fmt.Sprintf("minprice%d", d))
 		if c.MinPrice[d] == 7 {
 			c.MinPrice[d] = rapid.Uint64().Draw(rt, fmt.Sprintf("minpriceR%d", d))
